@@ -79,6 +79,7 @@ structure St where
   pub : List Hid := []                  -- ids ever published in the registry
   stopDone : List Hid := []             -- handlers whose stop() has returned (so before remove() returns)
   sink : Hid → List (Tid × Nat) := fun _ => []   -- messages written, newest first
+  started : Tid → List Nat := fun _ => []        -- messages of the log calls a thread has begun, newest first
 
 def upd {α : Type} (f : Nat → α) (k : Nat) (v : α) : Nat → α := fun u => if u = k then v else f u
 
@@ -95,7 +96,7 @@ def step (s : St) (t : Tid) (lab : Lab) : Option St :=
   | .idle, .start .add => some (setPc s t .a0)
   | .idle, .start (.remove h) => some (setPc s t (.r0 (some h)))
   | .idle, .start .removeAll => some (setPc s t (.r0 none))
-  | .idle, .start (.log m) => some (setPc s t (.l0 m))
+  | .idle, .start (.log m) => some { setPc s t (.l0 m) with started := upd s.started t (m :: s.started t) }
   | .idle, .start .other => some (setPc s t .o0)
   | .idle, .start .fork => some (setPc s t .k0)
   -- ---------------------------------------------------------------- fork (acquire_locks / release_locks)
